@@ -164,6 +164,10 @@ def b64s_decode(data):
             raise ValueError(
                 "string argument should contain only ASCII characters"
             ) from None
+    if data.translate(None, _BASE64_CHARS):
+        # NOTE: a2b_base64() skips foreign chars and stops at an embedded "=",
+        #       which would let an altered string decode to (part of) the original.
+        raise TypeError("invalid base64 input")
     off = len(data) & 3
     if off == 0:
         pass
@@ -180,6 +184,7 @@ def b64s_decode(data):
 
 
 _BASE64_STRIP = b"=\n"
+_BASE64_CHARS = b"ABCDEFGHIJKLMNOPQRSTUVWXYZabcdefghijklmnopqrstuvwxyz0123456789+/"
 _BASE64_PAD1 = b"="
 _BASE64_PAD2 = b"=="
 
